@@ -1044,7 +1044,56 @@ func ruleFreshLinks(c *Ctx, r *Rep, tier string) {
 					f, _ := loadedField(v.Call.Args[1])
 					okc = f == refsF
 				}
-				r.Check(okc, rule, key, c.Pos(st.Pos()), "a copy of the merged header's reference list (source 0)", "the link list stored for a source is "+symKey(st.Val)+", neither made for this source nor a copy of the merged list")
+				whyc := "the link list stored for a source is " + symKey(st.Val) + ", neither made for this source nor a copy of the merged list"
+				if okc {
+					// … which is right for source 0 only: the merged header starts as its
+					// clone, so position k there is position k here. Any other source is
+					// linked by name (seed C18-p of the fifteenth round: a source with the
+					// same references in another order got the positional copy too).
+					first := false
+					for _, b := range fn.Blocks {
+						ifi := ifOf(b)
+						if ifi == nil {
+							continue
+						}
+						bo, isBo := ifi.Cond.(*ssa.BinOp)
+						if !isBo || bo.Op != token.EQL && bo.Op != token.NEQ {
+							continue
+						}
+						k, isK := constInt(bo.Y)
+						if !isK || k != 0 {
+							continue
+						}
+						// the index of the loop over the sources: the range counter, or
+						// the counter plus one (go/ssa counts from −1)
+						isIdx := false
+						switch x := bo.X.(type) {
+						case *ssa.Phi:
+							isIdx = x.Comment == "rangeindex"
+						case *ssa.BinOp:
+							if ph, ok := x.X.(*ssa.Phi); ok && x.Op == token.ADD && ph.Comment == "rangeindex" {
+								if one, ok := constInt(x.Y); ok && one == 1 {
+									isIdx = true
+								}
+							}
+						}
+						if !isIdx {
+							continue
+						}
+						e := 0
+						if bo.Op == token.NEQ {
+							e = 1
+						}
+						if dominatedByEdge(fn, b, e, st.Block()) {
+							first = true
+						}
+					}
+					if !first {
+						okc = false
+						whyc = "a positional copy of the merged header's list is stored as the links of a source that is not shown to be the first: position k of the merged list is that source's reference k only if the orders agree – a source with the same references in another order has every record relabelled"
+					}
+				}
+				r.Check(okc, rule, key, c.Pos(st.Pos()), "a copy of the merged header's reference list, for source 0", whyc)
 			default:
 				r.Fail(rule, key, c.Pos(st.Pos()), fmt.Sprintf("the link list stored for a source is %s, not a slice made for this source: sources share one backing array and a later source overwrites the links of an earlier one", symKey(st.Val)))
 			}
@@ -1118,6 +1167,7 @@ func init() {
 			{Name: "MERGE-KEEPS", What: "AddReference's merge of a compatible duplicate overwrites a field only with the duplicate's non-empty value; the @CO parser keeps the whole remainder of the line", Floor: 5, Run: ruleMergeKeeps},
 			{Name: "SCAN-LIMIT", What: "no parser of package sam reads lines through a bufio.Scanner with the default 64 KiB token limit: a header line (@PG CL, @CO) may be longer (added after eleventh-round seed C07-l; none today)", Floor: 0, Run: ruleScanLimit([]string{"sam"}),
 				Canary: func(cc *Ctx, r *Rep) { ruleScanLimit([]string{"scanc"})(cc, r, "") }, WantFail: []string{"scanc.Lines#scanner~1"}, WantPassMin: 1},
+			{Name: "STORE-AS-READ", What: "the @RG, @PG and @SQ line parsers store a field's text whatever its value (or refuse the line): no value the writer writes is dropped by the reader (added after fifteenth-round seed C07-p: FO:* taken for no flow order)", Floor: 3, Run: ruleStoreAsRead},
 			{Name: "DATE-ZONE", What: "every layout a read group's date is printed with carries a zone and is one the parser accepts as non-local (added after a blind second seed round)", Floor: 1, Run: ruleDateZone},
 			{Name: "WIRE-BAMHDR", What: "binary header: EncodeBinary's token sequence = DecodeBinary's", Floor: 6,
 				Run: ruleWirePair("WIRE-BAMHDR", "sam.(*Header).EncodeBinary#DecodeBinary", "sam", "(*Header).EncodeBinary", "sam", "(*Header).DecodeBinary", nil)},
